@@ -31,7 +31,9 @@ func FindMsg(files *protoregistry.Files, full string) protoreflect.MessageDescri
 	return md
 }
 
-var strPool = []string{"", "a", "hello", "a b", "a/b", "q?x=1&y=2", "100%", "é", "日本", "a+b", "x#frag", ".", "..", "tab\there", "quote\"s", "back\\slash", "UPPER", "-dash-", "~tilde", "semi;colon", "a,b", "@at:colon", "😀"}
+var strPool = []string{"", "a", "hello", "a b", "a/b", "q?x=1&y=2", "100%", "é", "日本", "a+b", "x#frag", ".", "..", "tab\there", "quote\"s", "back\\slash", "UPPER", "-dash-", "~tilde", "semi;colon", "a,b", "@at:colon", "😀",
+	// text that LOOKS percent-encoded: a value decoded once too often, or not at all, changes
+	"100%25.txt", "a%2Fb", "caf%C3%A9 %41", "%zz", "%"}
 var i32Pool = []int64{0, 1, -1, 7, 42, math.MaxInt32, math.MinInt32, 1000000}
 var i64Pool = []int64{0, 1, -1, 9007199254740991, 9007199254740993, math.MaxInt64, math.MinInt64, 1234567890123}
 var u32Pool = []uint64{0, 1, 7, math.MaxUint32, 65536}
